@@ -41,9 +41,10 @@ P = dict(
                 "two traces are compared item by item. Scope: optional<int>, optional<tracked copy+move>, optional<tracked move-only> incl. mixed optional<T>/optional<U> "
                 "forms; optional<int&>, optional<int const&>, optional<tracked&> against the model 'a pointer'; variant with 2, 3 and 4 alternatives (trivially copyable and "
                 "not) and a move-only variant, multi-variant visit over every index combination of 2 and 3 variants; expected<int,int>, expected<tracked,tracked2>, unexpected; "
-                "the alternative selected by converting construction/assignment for 416 (variant, argument type) cells. Enumerated: every start state x construction form, "
-                "then every operation with every argument tuple, all histories of depth 2 (optional, variant; thorough 3) / 3 (optional<T&>, expected; thorough 4), plus seeded "
-                "random 50-step histories, under ASan+UBSan with contract checks on (thorough: also off). Held means: no trace difference, no sanitizer report and no handler "
+                "the alternative selected by converting construction/assignment for 416 (variant, argument type) cells and 83 optional<T>/optional<U> conversion cells. "
+                "Enumerated: every start state x construction form, then every pair (operation, operation) with every argument tuple, plus every chain of d operations whose "
+                "first d-1 are state-changing (d = 3 for optional, optional<T&>, expected; thorough: 4; variant: thorough 3), plus seeded random 50-step histories, "
+                "under ASan+UBSan with contract checks on (thorough: also off). Held means: no trace difference, no sanitizer report and no handler "
                 "call on the executions listed in the evidence; it is not a proof for other payload types or longer histories."),
     level_note=("trusts libstdc++ 12 as oracle; libstdc++ 12 has no std::optional<T&> (model: pointer, relations via std::optional<V>) and no std::expected::and_then/or_else "
                 "(reference: the wording of [expected.object.monadic] written out in the harness); members tetl lacks (optional::value/transform, variant get<I>/member swap, "
@@ -52,11 +53,13 @@ P = dict(
     technique="runtime differential monitoring vs std::optional/variant/expected (twin-world traces) under ASan+UBSan; odometer enumeration + seeded random histories",
     design_ref="DESIGN.md section 4 C07",
     rule=("enumerated: per subject, one case per first operation; the case enumerates (odometer) every start state x construction form x every argument tuple of the first "
-          "operation x every further operation with every argument tuple up to the depth bound. One evaluation = one operation executed on both objects followed by the "
-          "comparison of the operation's observations and of the full observer battery. Distinct = hash of (subject, abstract state before = engaged/index + value, "
-          "operation, argument tuple); all are non-trivial (the state space is small by construction, so the distinct count is in the thousands while evaluations are in the tens of millions)."),
+          "operation x (a) every second operation with every argument tuple and (b) if the first operation can change the state, every chain first-op, state-changing op(s), "
+          "any op up to the depth bound with every argument tuple (histories through operations that cannot change the state are equivalent to shorter ones). One evaluation = "
+          "one operation executed on both objects followed by the comparison of the operation's observations and of the full observer battery. Distinct = hash of (subject, "
+          "abstract state before = engaged/index + value, operation, argument tuple); all are non-trivial (the state space is small by construction, so the distinct count is "
+          "in the thousands while evaluations are in the tens of millions)."),
     units=units,
-    floor={"quick": 20000000, "thorough": 100000000},
+    floor={"quick": 40000000, "thorough": 500000000},
     assumptions=["libstdc++ 12 std::optional / std::variant / std::expected are correct references", "[expected.object.monadic] (C++23) is transcribed correctly in the harness",
                  "gcc 12 ASan/UBSan"],
 )
